@@ -85,9 +85,8 @@ def event_manager_fault_classification(w: World):
             check(em.need_walk is True, "a rejected cursor forces a full walk")
 
 
-@lemma(props=["C14", "C11"], configs="update_cases", raises=["AssertionError"],
-       inline=["cloudsync.sync.state:SyncState.update", "cloudsync.sync.state:SyncState._change_oid",
-               "cloudsync.sync.state:SyncState._change_path", "cloudsync.sync.state:SyncState.lookup_oid"])
+@lemma(props=["C14"], configs="update_cases", raises=["AssertionError"],
+       inline=["cloudsync.sync.state:SyncState.update"])
 def event_update_records_the_event(w: World):
     """L14.4: applying a provider event (no prior id) to the state: an entry already known under the event's id is
     updated in place -- no second entry for the same object; otherwise a new entry is indexed under the id.  Afterwards
